@@ -20,6 +20,10 @@ Definition symmetric n (M : 'M[F]_n) : Prop := M^T = M.
 Definition spd n (M : 'M[F]_n) : Prop := symmetric M /\ posdef M.
 (* A <= B in the Loewner order: x^T (B - A) x >= 0 for every x *)
 Definition loewner_le n (A B : 'M[F]_n) : Prop := possemidef (B - A).
+(* x^T M y as a scalar: the bilinear form of M (an inner product when M is SPD) *)
+Definition bil n (M : 'M[F]_n) (x y : 'cV[F]_n) : F := (x^T *m M *m y) 0 0.
+(* T is self-adjoint for the inner product <x, y> = x^T P y  iff  P T is symmetric *)
+Definition selfadjoint n (P T : 'M[F]_n) : Prop := symmetric (P *m T).
 End Forms.
 
 Section Canonical.
